@@ -48,14 +48,14 @@ type CNode struct {
 }
 
 type c18Cfg struct {
-	n          int
-	seeds      []string
-	interval   time.Duration
-	fdTimeout  time.Duration
-	confirm    time.Duration
-	fanout     int
-	strategy   int
-	maxSkew    time.Duration
+	n         int
+	seeds     []string
+	interval  time.Duration
+	fdTimeout time.Duration
+	confirm   time.Duration
+	fanout    int
+	strategy  int
+	maxSkew   time.Duration
 }
 
 func c18Addr(i int) string { return fmt.Sprintf("127.0.0.1:%d", 9301+i) }
@@ -215,7 +215,7 @@ func c18Run(r *R, faults bool) {
 		}
 	}
 	var fdesc []string
-	departures := 0 // nodes that left the membership for good (crash, leave, restart under a new id)
+	departures := 0               // nodes that left the membership for good (crash, leave, restart under a new id)
 	departed := map[string]bool{} // their identities (address#node id) and addresses
 	if lateSeed {
 		// join retries back off 2 s, 4 s, 8 s, ...: give the late joiners time to get in before anything is judged
